@@ -230,7 +230,7 @@ class SymEnv(BaseEnv):
             if isinstance(s, (int, float, Fraction)):
                 f = Fraction(s)
             elif isinstance(s, apoly.P):
-                f = _frac(model.eval(s.to_z3(), model_completion=True))
+                f = apoly.model_value(s, model)
             else:
                 t = s.t
                 f = _frac(model.eval(t, model_completion=True))
